@@ -275,6 +275,12 @@ func (a *Analysis) OrderCheck() []Finding {
 		if e.Kind != memnet.KWrite || e.Pkt == nil || e.Pkt.Type != mqttref.PUBLISH {
 			continue
 		}
+		if !e.OK || e.S != "" {
+			// not on the wire: a write that failed locally (or was discarded after the peer closed). After a
+			// failure the library re-attempts the queue once on the same, already dead connection; those
+			// attempts never appear on the connection
+			continue
+		}
 		k := PktKey(e.Pkt)
 		idx, ok := a.SubIdx[k]
 		if !ok {
